@@ -1,5 +1,5 @@
 \* the pre-fix hand-off: TLC prints outcomes GoChanProg does not allow (value lost at close; delivered receiver stuck)
 SPECIFICATION Spec
-CONSTANTS HandOffBug = TRUE  SpuriousBudget = 0  defaultInitValue = 0
+CONSTANTS HandOffBug = TRUE  SpuriousBudget = 0  WithSelect = FALSE  SelPanicBug = FALSE  defaultInitValue = 0
 INVARIANTS MutexOwnerSane CapBound Emit
 CHECK_DEADLOCK FALSE
